@@ -58,11 +58,22 @@ def early_part(ck, tier, rng):
                     nlate += 1
                     cases.append(dict(name=name + "-late-scheduler", cfg=cfg, devs=devs, device=d, step=1, run=r, sched_delay=sd, initial=init))
                     terms.append(T(slevel.render_sim_case(cfg, devs, (1, 1), init, [], t_end, r, pre=[d]), P(d)))
-    ck.coverage.update(interrupts_before_the_scheduler_subscribed=nlate)
+    # a system simulation that comes up after the master has begun its initial tick (its Input is replayed to it while it
+    # subscribes): the initial tick still reaches every device inside it
+    nlatesys = 0
+    for name, cfg, devs in configs[:2]:
+        for sysc in [c for (c, k) in cfg[1]["order"] if k != "dev"]:
+            for dl in (2, 4, 7):
+                r = slevel.run_internal(cfg, devs, (1, 1), 0, [], t_end, delays={sysc: dl})
+                nlatesys += 1
+                d0 = slevel.devices_of(cfg)[0]
+                cases.append(dict(name=name + "-late-system", cfg=cfg, devs=devs, device=d0, step=0, run=r, late_system=[sysc, dl]))
+                terms.append(T(slevel.render_sim_case(cfg, devs, (1, 1), 0, [], t_end, r), P(d0)))
+    ck.coverage.update(interrupts_before_the_scheduler_subscribed=nlate, late_system_simulations=nlatesys)
     bad = run_shards(PID + "_early", sprops.HEADER, "early_case", "check_initial_early_latest", terms, shard_size=40)
     for i, c in enumerate(cases):
         ck.count(f"early:{c['name']}:{c['device']}:{c['step']}", bool(slevel.path_of(c["cfg"], c["device"])[1]))
-        if c["run"]["error"] or c["run"]["errors"]:
+        if c["run"]["error"] or c["run"]["errors"] or c["run"].get("unfinished"):
             bad.setdefault(i, []).append(63)
     ck.coverage.update(early_interrupt_runs=len(cases), early_interrupt_disagreements=len(bad),
                        interrupts_during_the_initial_tick_after_the_first_update=sum(1 for c in cases if c.get("during")))
@@ -73,7 +84,7 @@ def early_part(ck, tier, rng):
                   ("some device is not updated in the initial tick" if 63 in bad[i] or c["run"]["errors"] else
                    "some update is not handed the latest value its source reported (what the initial tick delivered is lost)"),
                   dict(kind="early", cfg={str(k): v for k, v in c["cfg"].items()}, devs={str(k): v for k, v in c["devs"].items()},
-                       device=c["device"], step=c["step"], updates=[(cc, t) for (cc, t, _) in c["run"]["trace"]][:40],
+                       device=c["device"], step=c["step"], late_system=c.get("late_system"), updates=[(cc, t) for (cc, t, _) in c["run"]["trace"]][:40],
                        errors=c["run"]["errors"][:2], sched_delay=c.get("sched_delay"), initial=c.get("initial", 0)))
         break
 
@@ -89,7 +100,10 @@ def replay(rp):
         return sprops.replay_S(rp)
     cfg = {int(k): dict(order=[(c, (kk if kk == "dev" else int(kk))) for c, kk in v["order"]], conns=[tuple(x) for x in v["conns"]]) for k, v in rp["cfg"].items()}
     devs = {int(k): tuple(v) for k, v in rp["devs"].items()}
-    if rp.get("sched_delay"):
+    if rp.get("late_system"):
+        r = slevel.run_internal(cfg, devs, (1, 1), 0, [], 700_000_003, delays={rp["late_system"][0]: rp["late_system"][1]})
+        term = slevel.render_sim_case(cfg, devs, (1, 1), 0, [], 700_000_003, r)
+    elif rp.get("sched_delay"):
         r = slevel.run_internal(cfg, devs, (1, 1), rp.get("initial", 0), [], 700_000_003, delays={"sched": rp["sched_delay"]}, early=(1, rp["device"]))
         term = slevel.render_sim_case(cfg, devs, (1, 1), rp.get("initial", 0), [], 700_000_003, r, pre=[rp["device"]])
     else:
